@@ -36,9 +36,9 @@ def loc_case(ctx, lon, lat, box, rmax, tag, boxkind) -> None:
     kw = {"lon": gen.carried(ctx.rng, lon, poisons=(0.0, 5.0, 179.0, -100.0), p_list=0.0),
           "lat": gen.carried(ctx.rng, lat, poisons=(0.0, 5.0, 80.0, -45.0), p_list=0.0)}
     if box is not None:
-        kw["bbox"] = box
+        kw["bbox"] = gen.ptype(ctx.rng, box) if ctx.rng.random() < 0.5 else box
     if rmax is not None or ctx.rng.random() < 0.3:
-        kw["range_max"] = rmax
+        kw["range_max"] = gen.ptype(ctx.rng, rmax)
     if ctx.rng.random() < 0.15:
         kw["lon"], kw["lat"] = list(lon), list(lat)
     mbox = tuple(box) if box is not None else (-180, -90, 180, 90)
@@ -88,7 +88,7 @@ def run(ctx) -> None:
         inside, edge, outside = points(tuple(box) if box is not None else (-180.0, -90.0, 180.0, 90.0))
         if box is None or boxkind == "globe":
             outside = []
-        n = rng.choice([1, 2, 3, 4, 6, 12])
+        n = rng.choice([1, 2, 3, 4, 6, 12, 12, 12, 12, 12, 60, ctx.pick(100, 400)])
         pool = inside * 2 + edge + outside
         pts = [rng.choice(pool) for _ in range(n)]
         tag = "rand"
